@@ -302,7 +302,11 @@ func (c acase) emit() {
 		}
 		ab = strings.Join(p, ",")
 	}
-	hx.Emit("pfp %d %s %s %s %s %s %s %s %s", c.req, hx.B(c.rc), hx.B(c.keep), hx.B(c.crcoff), hx.B(c.kerr), ab, hx.Hex(c.raw), table, c.descr)
+	rawHex := "."
+	if len(c.raw) > 0 {
+		rawHex = hx.Hex(c.raw)
+	}
+	hx.Emit("pfp %d %s %s %s %s %s %s %s %s", c.req, hx.B(c.rc), hx.B(c.keep), hx.B(c.crcoff), hx.B(c.kerr), ab, rawHex, table, c.descr)
 }
 
 // ---------------------------------------------------------------- log generator
@@ -536,7 +540,8 @@ func (g *logGen) msgs(v1 bool) {
 
 func (g *logGen) build(nb int, era int) {
 	r := g.r
-	pids := []int64{100, 200, 300}
+	pids := []int64{100, 200, 300}[:1+r.Intn(3)] // one to three transactional producers
+	endp := hx.Pick(r, []int{37, 37, 60, 75}) // how eagerly open transactions are ended
 	for i := 0; i < nb; i++ {
 		// era 0: v0 only, 1: v0+v1, 2: v1 then v2, 3: v2 only, 4: any mix
 		var fmtv int
@@ -569,7 +574,7 @@ func (g *logGen) build(nb int, era int) {
 				p = 400
 			}
 			g.v2(0, p, false)
-		case k < 60 || !isOpen: // transactional data
+		case k < 100-endp || !isOpen: // transactional data
 			if !isOpen {
 				g.open[pid] = g.off
 			}
@@ -674,7 +679,7 @@ func gen(a hx.Args) {
 	// 1. well-formed logs, whole
 	for i := 0; i < a.N(500, 12000); i++ {
 		g := newLog(r, st)
-		g.build(1+r.Intn(9), hx.Pick(r, []int{0, 1, 2, 3, 3, 3, 3, 4, 4}))
+		g.build(1+r.Intn(12), hx.Pick(r, []int{0, 1, 2, 3, 3, 3, 3, 3, 4, 4}))
 		req := g.pickReq()
 		c := acase{req: req, rc: r.Chance(65), keep: r.Chance(30), crcoff: r.Chance(8), raw: g.raw(), descr: g.descr(len(g.batches))}
 		c.aborted = shuffle(r, g.abortedFor(req))
